@@ -6,6 +6,7 @@ package main
 import (
 	"fmt"
 	"go/types"
+	"strconv"
 	"strings"
 
 	"golang.org/x/tools/go/ssa"
@@ -278,9 +279,25 @@ func bytesEqual(x *Exec, fr *frame, ins ssa.CallInstruction, c *ssa.CallCommon, 
 	S := x.vc.S
 	e := S.freshConst("bytes_eq", true)
 	k := S.freshConst("bytes_eq_wit", false)
+	// a literal operand (bytes.Equal([]byte{0}, x)) has a small constant length: the equality is
+	// then spelled out element by element -- no quantifier, and no trigger over a macro memory
+	constLen := int64(-1)
+	for _, v := range []Val{a, b} {
+		if n, err := strconv.ParseInt(v[2].T, 10, 64); err == nil && n <= 16 {
+			constLen = n
+		}
+	}
+	if constLen >= 0 {
+		var eqs []string
+		for i := int64(0); i < constLen; i++ {
+			eqs = append(eqs, eq(x.vc.read(st.Mem, a[0].T, add(a[1].T, itoa(i))), x.vc.read(st.Mem, b[0].T, add(b[1].T, itoa(i)))))
+		}
+		S.fact(r, eq(e, and(append([]string{eq(a[2].T, b[2].T)}, eqs...)...)))
+		return Val{bc(e)}, r
+	}
 	S.fact(r, implies(e, and(eq(a[2].T, b[2].T),
-		fmt.Sprintf("(forall ((i Int)) (! (=> (and (<= 0 i) (< i %s)) (= (%s %s (+ %s i)) (%s %s (+ %s i)))) :pattern ((%s %s (+ %s i)))))",
-			a[2].T, st.Mem, a[0].T, a[1].T, st.Mem, b[0].T, b[1].T, st.Mem, a[0].T, a[1].T))))
+		fmt.Sprintf("(forall ((i Int)) (=> (and (<= 0 i) (< i %s)) (= (%s %s (+ %s i)) (%s %s (+ %s i)))))",
+			a[2].T, st.Mem, a[0].T, a[1].T, st.Mem, b[0].T, b[1].T))))
 	S.fact(r, implies(not(e), or(not(eq(a[2].T, b[2].T)),
 		and(sx("<=", "0", k), sx("<", k, a[2].T), not(eq(x.vc.read(st.Mem, a[0].T, add(a[1].T, k)), x.vc.read(st.Mem, b[0].T, add(b[1].T, k))))))))
 	return Val{bc(e)}, r
